@@ -17,14 +17,17 @@ def c06a(ctx, tu):
             body = fn.blocks[l["head"]]["succ"][0]
             bad = None
             for sat in (True, False):
-                o = Oracle(calls=dict(ITER, **{"trompeloeil::sequence_matcher::is_satisfied": sat}))
+              for opt in (True, False):
+                # whether an entry is optional / required must not matter: every pending entry counts
+                o = Oracle(calls=dict(ITER, **{"trompeloeil::sequence_matcher::is_satisfied": sat,
+                                               "trompeloeil::sequence_matcher::is_optional": opt}))
                 it = Interp(fn, o)
                 it.env.update(iter_env(fn))
                 res = it.run(start=body, stop_blocks={l["head"]})
                 want = ("stop", l["head"]) if sat else ("return", False)
-                if res != want:
-                    bad = "pending expectation %s: expected %s, code does %s" % (
-                        "satisfied" if sat else "not satisfied",
+                if res != want and bad is None:
+                    bad = "pending expectation %s (%s): expected %s, code does %s" % (
+                        "satisfied" if sat else "not satisfied", "optional" if opt else "required",
                         "look at the next one" if sat else "not completed", res)
             rets = cfg.events_in_blocks(fn, cfg.reach(fn, l["after"]), lambda e: e["e"] == "return")
             if not rets or any(e.get("x") != ["bool", True] for _, _, e in rets):
